@@ -587,6 +587,8 @@ class Gen:
         self.add(mk_struct("UseA2", "named", [mk_field("a", ("named", "DepA2", []))], export_to="merged/uses2.ts", flatten_ok=False, no_ref=True))
         self.add(mk_struct("UseB2", "named", [mk_field("b", ("vec", ("named", "DepB2", [])))], export_to="merged/uses2.ts", flatten_ok=False, no_ref=True))
         self.add(mk_struct("RootAB2", "named", [mk_field("a", ("named", "UseA2", [])), mk_field("b", ("option", ("named", "UseB2", [])))], flatten_ok=False, no_ref=True))
+        # `as` on a variant that is printed as its bare name (unit): the `as` type is visited all the same (C03 known class as_on_bare_variant)
+        self.add(mk_enum("KfAsUnit", [mk_variant("A", "unit", [], as_=("named", "Foo", [])), mk_variant("B", "tuple", [mk_field("_0", ("leaf", "i32"))])], no_ref=True))
         # a zero-length array of a named type: its text `[]` mentions nothing, so nothing may be imported for it (C03)
         self.add(mk_struct("ZeroArr", "named", [mk_field("none", ("array", 0, ("named", "Foo", []))),
                                                 mk_field("maybe", ("option", ("array", 0, ("named", "Foo", [])))), mk_field("n", ("leaf", "u8"))],
